@@ -89,7 +89,7 @@ PROPS = {
         ],
         not_decided=[
             'recursive have_syntax_errors over included files',
-            'SourceTrait::have_syntax_errors itself (recursion over included files, closures; oq3_source_file is not verified): analyze_source is proved against its specification',
+            'SourceTrait::have_syntax_errors itself (oq3_source_file): a trait default method that recurses through the impl for SourceFile — Verus rejects this shape ("cyclic self-reference" between the trait declaration and the method body), so it is outside the technique; analyze_source is proved against its specification',
         ],
         explanation='Verus.',
     ),
